@@ -3,6 +3,10 @@ import RichModel.Lemmas.TableRender
 import RichModel.Lemmas.TableWidths
 import RichModel.Lemmas.CollapseKeep
 import RichModel.Lemmas.TableTotal
+import RichModel.Lemmas.TableChars
+import RichModel.Lemmas.TableText
+import RichModel.Lemmas.TableStable
+import RichModel.Lemmas.TableGeneral
 import RichModel.Gen.CellWidths
 import RichModel.Gen.TableBoxes
 /-!
@@ -255,6 +259,105 @@ theorem every_cell_line_shown (fl : Flags) (t : Table) (widths : List Nat) (hlen
   simp only at this ⊢
   omega
 
+/-- Part `j` of line `k` of a row is line `k` of that cell's shaped rendering. -/
+theorem cellLine_part (t : Table) (widths : List Nat) (first last : Bool) (i : Nat) (row : List Cell)
+    (hrl : row.length = widths.length) (k j : Nat) (hj : j < widths.length) :
+    (t.cellLine cw widths first last i row k).parts.getD j []
+      = (shapeCell cw widths[j] (shapeRow cw widths row).1 ((row[j]'(by omega)).renderLines widths[j])).getD k [] := by
+  have hparts : (t.cellLine cw widths first last i row k).parts = (shapeRow cw widths row).2.map (fun c => c.getD k []) := by
+    unfold Table.cellLine; cases t.box <;> rfl
+  have hg := shapeRow_getElem cw widths row hrl j hj
+  rw [hparts, List.getD_eq_getElem?_getD, List.getElem?_map, hg]
+  rfl
+
+/-- **The property's sentence, on rendered characters.**  Take any cell — row `i`, column `j` — whose rendering at the
+column's width consists of lines of exactly that width (what `render_lines` guarantees) and keeps the non-whitespace
+characters of its source text `src` in order (for a text cell in a fold column: C02's `wrap_fold_keeps_nonspace`).  Then
+* every line `k < h` of row `i` is a line of the rendered body, and it reads `pre ++ part ++ post` where `pre` is exactly
+  `colOffset j` cells wide (the left edge, the earlier columns, one divider each) and `part` exactly `widths[j]` cells;
+* reading those parts top to bottom and dropping whitespace gives EXACTLY the non-whitespace characters of `src`, in order —
+  every one of them, none twice, inside column `j`'s span of cells; the rest of each line (`pre`, `post`) belongs to the
+  edges, the dividers and the other columns. -/
+theorem cell_characters_in_column (fl : Flags) (t : Table) (hwf : ∀ b, t.box = some b → b.wf cw) (widths : List Nat)
+    (hlen : widths.length = t.columns.length) (isSp : Char → Bool) (hsp : isSp ' ' = true)
+    (i : Nat) (row : List Cell) (hrow : t.rows[i]? = some row) (j : Nat) (hj : j < widths.length) (hjr : j < row.length)
+    (src : List Char) (hexact : ∀ x ∈ row[j].renderLines widths[j], cellLen cw x = widths[j])
+    (hkeep : ((row[j].renderLines widths[j]).flatten).filter (fun c => !isSp c) = src.filter (fun c => !isSp c)) :
+    (∀ k, k < (shapeRow cw widths row).1 →
+      t.cellLine cw widths (i == 0) (i + 1 == t.rows.length) i row k ∈ t.renderBody fl cw widths ∧
+      ∃ pre post, (t.cellLine cw widths (i == 0) (i + 1 == t.rows.length) i row k).text
+          = pre ++ (t.cellLine cw widths (i == 0) (i + 1 == t.rows.length) i row k).parts.getD j [] ++ post ∧
+        cellLen cw pre = t.colOffset widths j ∧
+        cellLen cw ((t.cellLine cw widths (i == 0) (i + 1 == t.rows.length) i row k).parts.getD j []) = widths[j]) ∧
+    ((List.range (shapeRow cw widths row).1).flatMap
+        (fun k => (t.cellLine cw widths (i == 0) (i + 1 == t.rows.length) i row k).parts.getD j [])).filter (fun c => !isSp c)
+      = src.filter (fun c => !isSp c) := by
+  have hrl : row.length = widths.length := by
+    have := zipRows_row_length _ row (List.mem_of_getElem? hrow)
+    simpa [hlen] using this
+  refine ⟨?_, ?_⟩
+  · intro k hk
+    refine ⟨cellLine_mem_body fl cw t widths i row hrow k hk, ?_⟩
+    obtain ⟨hjp, pre, post, h1, h2, h3, _⟩ :=
+      cellLine_column cw charWidth_space charWidth_le_two t hwf widths (i == 0) (i + 1 == t.rows.length) i row hrl k hk j hj
+    have hg : (t.cellLine cw widths (i == 0) (i + 1 == t.rows.length) i row k).parts.getD j []
+        = (t.cellLine cw widths (i == 0) (i + 1 == t.rows.length) i row k).parts[j] := by
+      rw [List.getD_eq_getElem?_getD, List.getElem?_eq_getElem hjp]; rfl
+    rw [hg]
+    exact ⟨pre, post, h1, h2, h3⟩
+  · have hcongr : (List.range (shapeRow cw widths row).1).flatMap
+          (fun k => (t.cellLine cw widths (i == 0) (i + 1 == t.rows.length) i row k).parts.getD j [])
+        = (List.range (shapeRow cw widths row).1).flatMap
+          (fun k => (shapeCell cw widths[j] (shapeRow cw widths row).1 (row[j].renderLines widths[j])).getD k []) := by
+      congr 1
+      funext k
+      exact cellLine_part t widths _ _ i row hrl k j hj
+    rw [hcongr, shaped_lines_nonspace cw isSp hsp widths[j] _ _ hexact (cell_height_le cw widths row hrl j hj)]
+    exact hkeep
+
+/-- …and when no character of the line is zero cells wide, the part IS what slicing the rendered line at the column's cell
+offset for the column's width returns: `cellSpan line (colOffset j) widths[j]`. -/
+theorem cell_span_is_part (t : Table) (hwf : ∀ b, t.box = some b → b.wf cw) (widths : List Nat) (first last : Bool) (i : Nat)
+    (row : List Cell) (hrl : row.length = widths.length) (k : Nat) (hk : k < (shapeRow cw widths row).1) (j : Nat) (hj : j < widths.length)
+    (hpos : ∀ c ∈ (t.cellLine cw widths first last i row k).text, 1 ≤ cw c) :
+    cellSpan cw (t.cellLine cw widths first last i row k).text (t.colOffset widths j) widths[j]
+      = (t.cellLine cw widths first last i row k).parts.getD j [] := by
+  obtain ⟨hjp, pre, post, h1, h2, h3, _⟩ :=
+    cellLine_column cw charWidth_space charWidth_le_two t hwf widths first last i row hrl k hk j hj
+  have hg : (t.cellLine cw widths first last i row k).parts.getD j [] = (t.cellLine cw widths first last i row k).parts[j] := by
+    rw [List.getD_eq_getElem?_getD, List.getElem?_eq_getElem hjp]; rfl
+  rw [hg]
+  rw [h1] at hpos ⊢
+  rw [← h2, ← h3]
+  exact cellSpan_eq cw pre _ post (fun c hc => hpos c (by simp [hc])) (fun c hc => hpos c (by simp [hc]))
+
+/-- **…literally, for text cells.**  Let cell `(i, j)` be a text cell — `Padding(text, (pt, pr, pb, pl))` rendered at the
+column's width with overflow "fold", wrapping on, any justify; its lines are C02's model of `Text.wrap` at the content
+width (`wrapCell`) — in a column at least 2 cells wider than its padding.  Then on the rendered table every
+non-whitespace character of the text appears, in order, exactly once, inside column `j`'s span of cells on the lines of
+row `i` (and the rest of those lines is edges, dividers and the other columns).  Uses `C02.wrap_fold_keeps_nonspace` and
+`C02.wrap_lines_fit` for the cell, `cell_characters_in_column` for the table. -/
+theorem text_cell_characters_in_column {σ : Type} [BEq σ] [LawfulBEq σ] (chars : Bool) (A : Wrap.StyleAlg σ) (txt : RichModel.Text σ)
+    (htxt : Text.Inv txt) (pt pr pb pl : Nat) (justify : Option RichModel.Justify) (meas : Nat → Measurement)
+    (fl : Flags) (t : Table) (hwf : ∀ b, t.box = some b → b.wf cw) (widths : List Nat)
+    (hlen : widths.length = t.columns.length)
+    (i : Nat) (row : List Cell) (hrow : t.rows[i]? = some row) (j : Nat) (hj : j < widths.length) (hjr : j < row.length)
+    (hcell : row[j] = wrapCell chars cw A txt pt pr pb pl justify meas)
+    (hw : 2 ≤ widths[j] - pl - pr) (hfit : pl + pr ≤ widths[j]) :
+    (∀ k, k < (shapeRow cw widths row).1 →
+      t.cellLine cw widths (i == 0) (i + 1 == t.rows.length) i row k ∈ t.renderBody fl cw widths ∧
+      ∃ pre post, (t.cellLine cw widths (i == 0) (i + 1 == t.rows.length) i row k).text
+          = pre ++ (t.cellLine cw widths (i == 0) (i + 1 == t.rows.length) i row k).parts.getD j [] ++ post ∧
+        cellLen cw pre = t.colOffset widths j ∧
+        cellLen cw ((t.cellLine cw widths (i == 0) (i + 1 == t.rows.length) i row k).parts.getD j []) = widths[j]) ∧
+    ((List.range (shapeRow cw widths row).1).flatMap
+        (fun k => (t.cellLine cw widths (i == 0) (i + 1 == t.rows.length) i row k).parts.getD j [])).filter (fun c => !RichModel.pyIsSpace c)
+      = txt.plain.filter (fun c => !RichModel.pyIsSpace c) := by
+  have hc := wrapCell_contract chars cw charWidth_space charWidth_le_two C02.rich_widths_admissible.2.2 A txt htxt pt pr pb pl justify widths[j] hw hfit
+  apply cell_characters_in_column fl t hwf widths hlen RichModel.pyIsSpace pyIsSpace_space i row hrow j hj hjr txt.plain
+  · rw [hcell]; exact hc.1
+  · rw [hcell]; exact hc.2
+
 /-! ### column widths -/
 
 /-- **table_expand_exact.**  An expanding table (`expand=True` or an explicit `width`) whose columns fit the
@@ -351,6 +454,57 @@ theorem table_exact_collapsed (fl : Flags) (t : Table) (maxWidth : Int) (hnr : t
   rw [h3, hsum]
   have := padTarget_le fl t maxWidth
   split <;> omega
+
+/-- `_collapse_widths` never widens a column: pointwise, every collapsed width is at most what it started from. -/
+theorem collapse_widths_le (widths : List Int) (wrapable : List Bool) (maxWidth : Int)
+    (hlen : widths.length = wrapable.length) (hnn : ∀ w ∈ widths, 0 ≤ w) :
+    ListLe (collapseWidths widths wrapable maxWidth) widths :=
+  collapseWidths_le widths wrapable maxWidth hlen hnn
+
+/-- **The stability hypothesis of `table_exact_collapsed`, derived from the oracle contract of text cells.**  If every cell
+measures like a text — `maximum = min(natural width, width on offer)`, which is what `Measurement.get` returns for `Text`
+and for `Padding(Text)` — then the columns collapsed to `r` measure exactly `r` again.  So a table of free columns whose
+natural widths do not fit is EXACTLY `max_width` wide (expanding or not, whatever the flags), at every `max_width` of at
+least one cell per column. -/
+theorem table_exact_collapsed_textlike (fl : Flags) (t : Table) (maxWidth : Int) (hnr : t.NoRatio) (hfree : t.AllFree)
+    (htl : ∀ c ∈ t.columns, ∀ cell ∈ t.getCells c, cell.TextLike)
+    (hne : t.columns ≠ []) (hnw : ∀ c ∈ t.columns, c.noWrap = false) (hmw : (t.columns.length : Int) ≤ maxWidth)
+    (hover : maxWidth < (t.indexed.map (fun ci => orOne (t.measureColumn ci.2 ci.1 maxWidth).maximum)).sum) :
+    ∃ ws, t.calcWidths fl maxWidth = some ws ∧ ws.sum = maxWidth ∧ ws.length = t.columns.length := by
+  have hn1 : 1 ≤ t.columns.length := by
+    cases h : t.columns with
+    | nil => exact absurd h hne
+    | cons _ _ => simp
+  apply table_exact_collapsed fl t maxWidth hnr hfree hne hnw (by omega) hover
+  intro ws0 h0
+  obtain ⟨ws0', h0', hl, hp⟩ := firstWidths_free fl t hnr hfree maxWidth
+  have h0'' := firstWidths_noRatio fl t hnr maxWidth
+  rw [h0] at h0' h0''
+  simp only [Option.some.injEq] at h0' h0''
+  subst h0'
+  have hwrap : ∀ c ∈ t.columns, c.width = none ∧ c.noWrap = false := by
+    intro c hc
+    obtain ⟨i, hi, rfl⟩ := List.getElem_of_mem hc
+    have : (t.columns[i], i) ∈ t.indexed := by
+      unfold Table.indexed; exact List.mem_zipIdx_iff_getElem?.2 (by simp [hi])
+    exact ⟨(hfree _ this).1, hnw _ (List.getElem_mem _)⟩
+  have hwl : ws0.length = t.wrapable.length := by simp [Table.wrapable, hl]
+  have hle := collapse_widths_le ws0 t.wrapable maxWidth hwl (fun w hw => by have := hp w hw; omega)
+  have hk := collapseWidths_keep ws0 t.wrapable maxWidth hwl (wrapable_all t hwrap) hp (by omega)
+  have hle' : ListLe (collapseWidths ws0 t.wrapable maxWidth)
+      (t.indexed.map (fun ci => orOne (t.measureColumn ci.2 ci.1 maxWidth).maximum)) := by rw [← h0'']; exact hle
+  exact remeasure_stable_textlike t hfree htl maxWidth (by omega) _ hle' hk
+
+/-- Witness that the stability hypothesis is NOT automatic: a cell that measures 6 when offered at least 6 cells but only
+2 when offered less (a renderable with a fixed-size layout and a compact fallback) — the non-expanding table is collapsed
+to 9 cells, re-measured, and ends up 7 cells wide in 9 (still a rectangle, still fitting, not "exactly `max_width`"). -/
+def wShrinkCell : Cell :=
+  { measure := fun w => if 6 ≤ w then ⟨6, 6⟩ else ⟨2, 2⟩, renderLines := fun w => [List.replicate w ' '] }
+
+theorem remeasure_can_shrink :
+    ({ columns := [{ header := wShrinkCell, footer := wCell [], cells := [] },
+                   { header := wCell ['a', 'b', 'c', 'd', 'e', 'f', 'g', 'h'], footer := wCell [], cells := [] }],
+       padding := (0, 0, 0, 0) } : Table).calcWidths Flags.allRepaired 9 = some [2, 5] := by decide
 
 /-- `_collapse_widths` never starves a column: every column free to wrap, every width at least 1, a budget of
 at least one cell per column ⇒ every collapsed width is at least 1 (so the `maximum or 1` of the re-measure
@@ -552,6 +706,109 @@ def wTableStale : Table :=
 
 theorem old_expand_stale_width_fails : wTableStale.calcWidths Flags.repaired 6 = some [3, 1] := by decide
 example : wTableStale.calcWidths Flags.allRepaired 6 = some [5, 1] := by decide
+
+/-! ### every kind of column: fixed `width`, `min_width`, `max_width`, `no_wrap` -/
+
+theorem floorSum_nonneg (t : Table) : 0 ≤ t.floorSum := by
+  unfold Table.floorSum
+  apply sum_nonneg_of_all
+  intro x hx
+  simp only [List.mem_map] at hx
+  obtain ⟨ci, _, rfl⟩ := hx
+  exact colFloor_nonneg t ci.2 ci.1
+
+/-- **The structural minimum, and the exact bound, for ARBITRARY columns.**  Let `ws0` be the first-pass widths (every
+column at least one cell).  The table's structural minimum is `Σ ws0 over the columns that may not shrink` (fixed `width`,
+`no_wrap`) `+ 1 per column that may` (`nonWrapSum + wrapCount`).  If `max_width` is at least that:
+`_calculate_column_widths` succeeds, gives every column at least one cell, never needs the last-resort `ratio_reduce`, and
+the table is at most `max_width + floorSum` wide, where `floorSum` adds up the `min_width + padding` floors of the columns
+that have a `min_width` — the ONLY way the result exceeds the offer (the collapse ignores `min_width`, the re-measure puts
+it back).  Any sane table, any flags. -/
+theorem width_bound_general (fl : Flags) (t : Table) (maxWidth : Int) (hsane : t.Sane) (hne : t.columns ≠ [])
+    (ws0 : List Int) (h0 : t.firstWidths fl maxWidth = some ws0) (hl : ws0.length = t.columns.length) (hp : ∀ w ∈ ws0, 1 ≤ w)
+    (hbudget : nonWrapSum (ws0.zip t.wrapable) + wrapCount (ws0.zip t.wrapable) ≤ maxWidth) :
+    ∃ ws, t.calcWidths fl maxWidth = some ws ∧ ws.sum ≤ maxWidth + t.floorSum ∧ ws.length = t.columns.length ∧ ∀ w ∈ ws, 1 ≤ w := by
+  have hF := floorSum_nonneg t
+  have hne0 : ws0 ≠ [] := by
+    intro h; rw [h] at hl; simp at hl
+    exact hne (List.eq_nil_of_length_eq_zero hl.symm)
+  have hge1 : ∀ (a b : List Int), (∀ p ∈ a.zip b, p.1 ≤ p.2) → a.length = b.length → (∀ w ∈ a, 1 ≤ w) → ∀ w ∈ b, 1 ≤ w := by
+    intro a b hz hlen ha w hw
+    obtain ⟨i, hi, rfl⟩ := List.getElem_of_mem hw
+    have hia : i < a.length := by omega
+    have := hz (a[i], b[i]) (by rw [List.mem_iff_getElem]; exact ⟨i, by simp; omega, by simp⟩)
+    have := ha a[i] (List.getElem_mem _)
+    simp only at *; omega
+  rw [calcWidths_ne fl t maxWidth hne, h0]
+  by_cases hover : ws0.sum > maxWidth
+  · simp only [hover, if_true]
+    obtain ⟨hpre, hrs, hrl, hr1⟩ := shrinkPre_budget t maxWidth ws0 hl hp (by omega) hbudget
+    unfold Table.shrinkWidths
+    simp only [hpre]
+    obtain ⟨hml, hm1, hms⟩ := remeasure_general t hsane _ hrl hr1
+    have hmne : t.remeasure (collapseWidths ws0 t.wrapable maxWidth) ≠ [] := by
+      intro h; rw [h] at hml; simp at hml
+      exact hne (List.eq_nil_of_length_eq_zero hml.symm)
+    by_cases hst : fl.staleTableWidth = true
+    · simp only [hst, if_true]
+      obtain ⟨r, h1, h2, h3, h4⟩ := padWidths_spec fl t _ (collapseWidths ws0 t.wrapable maxWidth).sum maxWidth hmne hm1
+      refine ⟨r, h1, ?_, by omega, hge1 _ _ h4 h2.symm hm1⟩
+      rw [h3]
+      have := padTarget_le fl t maxWidth
+      split <;> omega
+    · simp only [hst, Bool.false_eq_true, if_false]
+      obtain ⟨r, h1, h2, h3, h4⟩ := padWidths_spec fl t _ (t.remeasure (collapseWidths ws0 t.wrapable maxWidth)).sum maxWidth hmne hm1
+      refine ⟨r, h1, ?_, by omega, hge1 _ _ h4 h2.symm hm1⟩
+      rw [h3]
+      have := padTarget_le fl t maxWidth
+      split <;> omega
+  · simp only [hover, if_false]
+    obtain ⟨r, h1, h2, h3, h4⟩ := padWidths_spec fl t ws0 ws0.sum maxWidth hne0 hp
+    refine ⟨r, h1, ?_, by omega, hge1 _ _ h4 h2.symm hp⟩
+    rw [h3]
+    have := padTarget_le fl t maxWidth
+    split <;> omega
+
+/-- **width_fits for arbitrary columns without a binding `min_width`**: fixed-width, capped and `no_wrap` columns allowed,
+no active ratio; at or above the structural minimum the table is never wider than the width on offer. -/
+theorem width_fits_general (fl : Flags) (t : Table) (maxWidth : Int) (hsane : t.Sane) (hnr : t.NoRatio) (hne : t.columns ≠ [])
+    (hnomin : ∀ c ∈ t.columns, c.minWidth = none ∨ c.width.isSome = true)
+    (hbudget : nonWrapSum ((t.indexed.map (fun ci => orOne (t.measureColumn ci.2 ci.1 maxWidth).maximum)).zip t.wrapable)
+      + wrapCount ((t.indexed.map (fun ci => orOne (t.measureColumn ci.2 ci.1 maxWidth).maximum)).zip t.wrapable) ≤ maxWidth) :
+    ∃ ws, t.calcWidths fl maxWidth = some ws ∧ ws.sum ≤ maxWidth ∧ ws.length = t.columns.length ∧ ∀ w ∈ ws, 1 ≤ w := by
+  have hF : t.floorSum = 0 := by
+    unfold Table.floorSum
+    apply sum_zero_of_all_zero
+    intro x hx
+    simp only [List.mem_map] at hx
+    obtain ⟨ci, hci, rfl⟩ := hx
+    unfold Table.colFloor
+    rcases hnomin ci.1 (mem_indexed t ci hci) with h | h
+    · simp [h]
+    · simp [h]
+  obtain ⟨ws, h1, h2, h3, h4⟩ := width_bound_general fl t maxWidth hsane hne _ (firstWidths_noRatio fl t hnr maxWidth)
+    (by simp [indexed_length]) (by
+      intro w hw
+      simp only [List.mem_map] at hw
+      obtain ⟨ci, hci, rfl⟩ := hw
+      exact orOne_pos _ (measureColumn_nonneg t hsane ci.2 ci.1 (mem_indexed t ci hci) maxWidth)) hbudget
+  exact ⟨ws, h1, by omega, h3, h4⟩
+
+/-- BELOW the structural minimum the table can be wider than the offer, by an amount the order-dependent caps of the
+last-resort `ratio_reduce` decide: two `no_wrap` columns measuring 6 and 1 when offered 6 cells (structural minimum 7) get
+`[6, 1]` — 7 cells, 1 too many (`ratio_reduce(1, [1,1], [6,1], [6,1]) = [6, 0]`: banker's rounding gives the first column
+`round(1/2) = 0` to give up, the second all of its single cell; then `0 or 1`). -/
+theorem below_structural_minimum_overflows :
+    ({ columns := [{ header := wCell ['a', 'a', 'a', 'a', 'a', 'a', 'a', 'a', 'a', 'a'], footer := wCell [], cells := [], noWrap := true },
+                   { header := wCell ['b'], footer := wCell [], cells := [], noWrap := true }],
+       padding := (0, 0, 0, 0) } : Table).calcWidths Flags.allRepaired 6 = some [6, 1] := by decide
+
+/-- …and with a `min_width` the bound `max_width + floorSum` is attained: columns of natural width 12 with `min_width` 10
+and 12 without, offered 16 (structural minimum 2): collapsed evenly to `[8, 8]`, re-measured to `[10, 8]` — 18 in 16. -/
+theorem min_width_overflows :
+    ({ columns := [{ header := wCell ['a', 'a', 'a', 'a', 'a', 'a', 'a', 'a', 'a', 'a', 'a', 'a'], footer := wCell [], cells := [], minWidth := some 10 },
+                   { header := wCell ['b', 'b', 'b', 'b', 'b', 'b', 'b', 'b', 'b', 'b', 'b', 'b'], footer := wCell [], cells := [] }],
+       padding := (0, 0, 0, 0) } : Table).calcWidths Flags.allRepaired 16 = some [10, 8] := by decide
 
 /-! ### totality (what C14 needs): `_calculate_column_widths` never trips `assert total_ratio > 0` -/
 
